@@ -181,7 +181,7 @@ def run(m, chk):
         "on every return site the returned curve depends on both operands, and on the weights of an operand unless the path established `weights is None` (DEP-MAY). "
         "Pointwise equality of the values and the correctness of the combined knot vector are not decided."
     )
-    chk.decides = ["DEHOMOG-PAIR (points divided by a list of weights are stored with exactly those weights)", "RESULT-HOMOG (every curve an operator returns is of degree 0 in the weights of each operand: no numerator / denominator factor missing or doubled)", "AFFINE-MAP (a result on the operand's own basis maps the control points affinely)", "MEMO-KEY (no function on the path is memoised by the value of numbers / knot vectors)", "PURE", "FRESH", "GATE(limits ⇒ ValueError)", "DELEGATE", "DEP-MAY per return site", 'POLY-ONLY (polynomial helpers only under weights is None)', 'INTERVAL', 'REFLECTED (x - A, M @ A, x / A are not A - x, A @ M, A / x)', 'ZIP-ALIGN (parallel lists are zipped with the same slice)']
+    chk.decides = ["SWAP-SYMMETRIC (the product knot vector treats both operands alike)", "DEHOMOG-PAIR (points divided by a list of weights are stored with exactly those weights)", "RESULT-HOMOG (every curve an operator returns is of degree 0 in the weights of each operand: no numerator / denominator factor missing or doubled)", "AFFINE-MAP (a result on the operand's own basis maps the control points affinely)", "MEMO-KEY (no function on the path is memoised by the value of numbers / knot vectors)", "PURE", "FRESH", "GATE(limits ⇒ ValueError)", "DELEGATE", "DEP-MAY per return site", 'POLY-ONLY (polynomial helpers only under weights is None)', 'INTERVAL', 'REFLECTED (x - A, M @ A, x / A are not A - x, A @ M, A / x)', 'ZIP-ALIGN (parallel lists are zipped with the same slice)']
     chk.not_decided = ["(A op B)(u) = A(u) op B(u) as values", "correctness of the combined knot vector (fails for different degrees with interior knots — consequence of the | defect, DESIGN §5)"]
     for name in ALL:
         q = B + name
@@ -267,3 +267,6 @@ def run(m, chk):
     from .extra import dehomog_pair
 
     dehomog_pair(r, chk, ["curves.BaseCurve.__truediv__"], floor=1)
+    from .extra import swap_symmetric
+
+    swap_symmetric(r, chk, "heavy.MathOperations.knotvector_mul")
